@@ -195,7 +195,7 @@ func crashShape(text string) string {
 var checkNoCrashR = reg("C01", "text", checkNoCrash)
 
 func init() {
-	for _, sub := range []string{"tokens", "hostile", "mutant"} {
+	for _, sub := range []string{"tokens", "hostile", "mutant", "headatom"} {
 		replayers["C01/"+sub] = replayers["C01/text"]
 	}
 }
@@ -206,7 +206,7 @@ var c01Tokens = []string{"(", ")", "[", "]", "{", "}", "%", "^", "~", "~@", ":",
 
 var c01Heads = []string{"f", "tf", "m", "mm", "mth", "a", "b", "S", "and", "or", "cond", "let", "letseq", "def", "set", "fn", "defn", "defmac", "for", "range", "break", "continue", "quote", "begin", "newScope", "mdef", "assert", "include", "macexpand", "eval", "return", "struct", "field", "func", "method", "interface", "package", "import", "var", "expectError", "comment", "%", "^", "~", "~@", ":", "=", ":=", "+", "-", "*", "/", "<", "==", "!=", "not", "aget", "aset", "hget", "hset", "hdel", "first", "rest", "cons", "append", "concat", "len", "str", "json", "unjson", "msgpack", "unmsgpack", "togo", "apply", "map", "sprintf", "symnum", "str2sym", "sym2str", "gensym", "read", "slice", "flatten", "arrayidx", "hashidx", "hpair", "keys", "infixExpand", "infix", "defined?", "type?", "list", "array", "hash", "raw", "makeArray", "string", "int", "float", "char", "_method", "deref", "&", "derefSet", "dot", ".", "chomp", "trim", "split", "nsplit", "exp", "sll", "sra", "bitNot", "bitAnd", "mod", "**", "++", "--", "+=", "pretty", "callcc", "generator", "sort", "reverse", "label:"}
 
-var c01Atoms = []string{"1", "-1", "0", "9223372036854775807", "-9223372036854775808", "1.5", "1e308", "-0.0", `"s"`, `""`, "#c", "nil", "true", "a", "b", "a:", ".a", "a.b", "a.b.c", "$a", "#a", "[]", "[1 2]", "()", "(quote x)", "{}", "{a = 1}", "(hash a: 1)", "(hash)", "(list 1 2)", "(fn [x] x)", "(fn [] (break))", "(raw \"ab\")", "[a b]", "[1 [2 [3]]]", "(list)", "%x", "^(a ~b)", "~x", "~@x", "lp:", "& rest", "[& r]", "[a & ]", "[#x]", "(def a 1)", "(and)", "(let)", "(cond)", "(for)", "(fn)", "x y", "\"\\x00\"", "(str2sym \"\")", "(str2sym \"a b\")", "(gensym)", "(read \"\")", "(read \" \")", "(read \"(\")", ".a", ".a.b", "(field .a 1)", "(hash .a 1)", "(macexpand nil)", "(eval nil)", "(apply f nil)"}
+var c01Atoms = []string{`"日本語"`, `"é😀"`, `doc:"日本語ですね"`, `gotags:"json:\"é😀😀\""`, "e:0", `([] \ 3)`, `(1 \ 2)`, `(a b \ c)`, `("s" \ [])`, "1", "-1", "0", "9223372036854775807", "-9223372036854775808", "1.5", "1e308", "-0.0", `"s"`, `""`, "#c", "nil", "true", "a", "b", "a:", ".a", "a.b", "a.b.c", "$a", "#a", "[]", "[1 2]", "()", "(quote x)", "{}", "{a = 1}", "(hash a: 1)", "(hash)", "(list 1 2)", "(fn [x] x)", "(fn [] (break))", "(raw \"ab\")", "[a b]", "[1 [2 [3]]]", "(list)", "%x", "^(a ~b)", "~x", "~@x", "lp:", "& rest", "[& r]", "[a & ]", "[#x]", "(def a 1)", "(and)", "(let)", "(cond)", "(for)", "(fn)", "x y", "\"\\x00\"", "(str2sym \"\")", "(str2sym \"a b\")", "(gensym)", "(read \"\")", "(read \" \")", "(read \"(\")", ".a", ".a.b", "(field .a 1)", "(hash .a 1)", "(macexpand nil)", "(eval nil)", "(apply f nil)"}
 
 func genHostile(t *rapid.T, depth int) string {
 	k := rapid.IntRange(0, 9).Draw(t, "hk")
@@ -238,6 +238,8 @@ func genHostileProgram(t *rapid.T) string {
 			"(def a [1]) (aset a 0 a) (def b (hash)) (hset b k: b)",
 			"(defmac m [x] ^(+ ~x 1)) (defmac mm [& r] ^(list ~@r)) (def a 1) (def b 2)",
 			"(struct S [(field Id: int64)]) (def a (S Id: 1)) (def b (& a))",
+			// declarations carrying non-ASCII attribute text: printing them (as a value, or inside an error text) pads columns
+			"(struct S [(field Id: int64 e:0 doc:\"日本語\") (field Nm: string e:1 gotags:\"json:\\\"é😀😀\\\"\")]) (def a (S Id: 1)) (func tf [c:S] [ok:bool] true) (def b S)",
 			"(def a (package \"p\" (def Pub 1) (def priv 2))) (def b a)",
 			"(defn f [#x] #x) (def a (f (+ 1 2))) (def b [a a])",
 			"(func tf [a:int64 b:string] [n:int64 err:error] (return a nil)) (def a 1) (def b \"s\") (defn f [x & r] x)",
@@ -423,7 +425,7 @@ func TestC01(t *testing.T) {
 			p.reportEnum("text", crashCase{Text: k.Text}, &ev.Failure{Sig: "host-process-died:" + site, Msg: fmt.Sprintf("evaluating %q kills the host process (fatal runtime error, not recoverable)", clip(k.Text, 300)), Expected: "a value or an error", Observed: k.Output})
 		}
 	}
-	r.SetRule(fmt.Sprintf("tokens: every string of <=L tokens over a %d-token alphabet (brackets, sigils, quote characters, numbers, strings, symbols, dotted and colon forms, special-form names, comment and string openers), joined with single spaces and again glued without spaces - exhaustive for L=2 (quick) / L=3 (thorough), rapid-sampled for lengths up to 7. hostile: grammar-generated forms whose head is any of %d special forms, builders and builtins with 0-4 arguments of the wrong shape (atoms of every kind, empty and malformed special forms, cyclic data, lazy arguments, packages, struct instances, typed func / method declarations and calls of them), nested to depth 3, in (), [] and {} brackets, optionally after a prelude defining such values. mutant: tests/*.zy scripts cut to a window and mutated 1-4 times (delete, duplicate, insert hostile token, change a bracket, truncate, splice from another script, replace an atom, flip a byte). Every text goes through 9 entry points in fresh interpreters: EvalString, LoadString+Run, ParseTokens (+ printing the forms), ParseTokens+EvalExpressions, (macexpand text), (eval (quote text)), (eval (read \"text\")), the REPL's infix line wrap {text}, and a second evaluation on the same interpreter after Clear(). Oracle: every call returns (value or error; the result is printed); a panic reaching the harness or a call that does not return under the %d-step VM budget is a violation. Non-trivial: >=2 tokens and not a verbatim corpus text. Distinct by text.", len(c01Tokens), len(c01Heads), c01Budget))
+	r.SetRule(fmt.Sprintf("tokens: every string of <=L tokens over a %d-token alphabet (brackets, sigils, quote characters, numbers, strings, symbols, dotted and colon forms, special-form names, comment and string openers), joined with single spaces and again glued without spaces - exhaustive for L=2 (quick) / L=3 (thorough), rapid-sampled for lengths up to 7. headatom: every one of those heads applied to every hostile atom (non-ASCII strings and field attributes, dotted pairs, boundary numbers, sigils, ...) - exhaustive; thorough: to every pair of atoms. hostile: grammar-generated forms whose head is any of %d special forms, builders and builtins with 0-4 arguments of the wrong shape (atoms of every kind, empty and malformed special forms, cyclic data, lazy arguments, packages, struct instances, typed func / method declarations and calls of them), nested to depth 3, in (), [] and {} brackets, optionally after a prelude defining such values. mutant: tests/*.zy scripts cut to a window and mutated 1-4 times (delete, duplicate, insert hostile token, change a bracket, truncate, splice from another script, replace an atom, flip a byte). Every text goes through 9 entry points in fresh interpreters: EvalString, LoadString+Run, ParseTokens (+ printing the forms), ParseTokens+EvalExpressions, (macexpand text), (eval (quote text)), (eval (read \"text\")), the REPL's infix line wrap {text}, and a second evaluation on the same interpreter after Clear(). Oracle: every call returns (value or error; the result is printed); a panic reaching the harness or a call that does not return under the %d-step VM budget is a violation. Non-trivial: >=2 tokens and not a verbatim corpus text. Distinct by text.", len(c01Tokens), len(c01Heads), c01Budget))
 	r.Assume("texts containing /dev/ or /proc/ are skipped (an include of /dev/zero is a hang that says nothing about the interpreter)", "makeArray refuses sizes > 65536 in the harness (allocation bombs); shell, channel and file-writing builtins are error stubs", "budget exhaustion is discarded, never a verdict; a call is only reported as not returning after 30 s and, re-run, 120 s")
 
 	// (1) exhaustive token strings
@@ -468,6 +470,33 @@ func TestC01(t *testing.T) {
 		}
 	}
 	r.ExhaustiveSpace(fmt.Sprintf("token strings of length <=%d, spaced and glued (sharded)", L), count)
+
+	// exhaustive: every head applied to every hostile atom (thorough: to every pair of atoms)
+	var hcount int64
+	hidx := 0
+	for _, h := range c01Heads {
+		for _, a1 := range c01Atoms {
+			seconds := []string{""}
+			if ev.Thorough() {
+				seconds = append(seconds, c01Atoms...)
+			}
+			for _, a2 := range seconds {
+				hidx++
+				if hidx%ev.NShards() != ev.Shard() {
+					continue
+				}
+				text := "(" + h + " " + a1 + ")"
+				if a2 != "" {
+					text = "(" + h + " " + a1 + " " + a2 + ")"
+				}
+				c := crashCase{Text: text}
+				r.Count("headatom", ev.Hash64(text), true, "head-x-atom", "exhaustive")
+				hcount++
+				p.reportEnum("headatom", c, c01Check(r, c))
+			}
+		}
+	}
+	r.ExhaustiveSpace("every head applied to every hostile atom (thorough: every pair of atoms) (sharded)", hcount)
 
 	p.rapidSub("tokens", ev.Scale(1500, 300000), func(t *rapid.T) {
 		n := rapid.IntRange(3, 7).Draw(t, "ntok")
